@@ -25,7 +25,7 @@ var childMu sync.Mutex
 var childSpawns, childDeaths int
 
 // per-step time limit (seconds): a child that makes no progress for this long is killed
-const stepTimeout = 20 * time.Second
+const stepTimeout = 45 * time.Second
 
 func workers() int {
 	n := runtime.NumCPU()
